@@ -78,9 +78,9 @@ def main():
           for pid in ids if pid not in CHECKS]
     m = {
         "version": 1, "setup_cmd": "./setup.sh",
-        "hooks": {"guard": "verif", "enable": "go build -tags verif (no hook files exist: the harness drives the public API only)",
+        "hooks": {"guard": "verif", "enable": "go build -tags verif (one hook file, cmd/verif_hooks.go: RandomPointsListForVerif hands the unexported points generator of `generate` a random source chosen by the harness; everything else is driven through the public API)",
                   "baseline_off_cmd": "cd /repo && GOFLAGS=-mod=mod GOPROXY=off GOSUMDB=off go test -vet=off -count=1 -timeout 25m ./...",
-                  "source_commits": [], "add_only": True},
+                  "source_commits": ["a2dc45ec23423fc333cf86db2573aa1b2d2923e8"], "add_only": True},
         "engines": [
             {"name": "lean-model", "path": "lean", "serves_properties": sorted(CHECKS),
              "kind_free_text": "Lean 4 executable model (Wsp/Model), specifications and theorems (Wsp/Props), compiled model driver (Driver/Main.lean)"},
